@@ -634,9 +634,11 @@ id_op_alloc(IdModel &im)
 		VIOL("get_wrong", "get(%llu) right after alloc does not return the value", (unsigned long long) id);
 }
 
-// iterate, removing entries on the way.  The statement says nothing about
-// mutation during a walk, so nothing is asserted about what the walk returns
-// (the removals themselves are still checked); instability is only recorded.
+// iterate, removing entries on the way.  "visit behave[s] as a finite map", and the documented contract of
+// nng_id_visit is that entries may be removed from the map while iterating (only additions make the result
+// undefined): every entry that is in the map for the whole walk is returned exactly once, nothing is returned that
+// is not in the map at that moment.  (Until round 4 this was only counted; a seeding agent pointed at the
+// documentation.)
 static void
 id_op_visit_remove(IdModel &im)
 {
@@ -653,8 +655,13 @@ id_op_visit_remove(IdModel &im)
 	sim_event("visit+remove mode %ld every %ld over %zu entries", mode, every, start.size());
 	while (nng_id_visit(im.m, &key, &val, &cursor)) {
 		auto it = im.model.find(key);
-		if (it == im.model.end() || it->second != val || !visited.insert(key).second)
-			unstable = true;
+		if (it == im.model.end())
+			VIOL("visit_phantom", "walk with removals: visit returned key %llu which is not in the map (any more)",
+			    (unsigned long long) key);
+		if (it->second != val)
+			VIOL("visit_wrong_value", "walk with removals: wrong value for key %llu", (unsigned long long) key);
+		if (!visited.insert(key).second)
+			VIOL("visit_duplicate", "walk with removals: visit returned key %llu twice", (unsigned long long) key);
 		if (++n > guard)
 			break;
 		if ((long) n % every == 0 && !im.model.empty()) {
@@ -667,11 +674,13 @@ id_op_visit_remove(IdModel &im)
 			id_op_remove(im, victim);
 		}
 	}
+	(void) unstable;
 	for (auto &kv : im.model)
 		if (start.count(kv.first) && !visited.count(kv.first))
-			unstable = true;
-	if (unstable)
-		sim_probe("idmap_visit_unstable_under_remove");
+			VIOL("visit_missing",
+			    "walk with removals (no additions): key %llu was in the map from the first to the last call of "
+			    "nng_id_visit and was never returned (%zu of %zu entries returned, %zu removed on the way)",
+			    (unsigned long long) kv.first, visited.size(), start.size(), start.size() - im.model.size());
 }
 
 static void
